@@ -31,19 +31,24 @@ def gen_input(idx: int, run_seed: int) -> dict:
         name, doc = hb[idx]
         _vary_coroutine_table(doc, seeds.stream(run_seed, "corotable"))
         return {"doc": doc, "origin": {"kind": "handbuilt", "name": name}}
-    rng = seeds.stream(run_seed, "program")
-    size = rng.choice(["small", "small", "medium", "medium", "large"])
-    saved = exps.WORDS
-    exps.WORDS = SAFE_WORDS
-    try:
-        k = exps.swarm_knobs(rng, size)
-        src = exps.ExpsGen(rng, k).program()
-    finally:
-        exps.WORDS = saved
-    src = _strip_multiline_indent(src)
-    out = sut.compile_exps(src)
-    if "raised" in out:
-        raise HarnessError(f"generator produced a rejected program: {out} seed={run_seed}")
+    # inputs are kept below ~400 ops: every injected run decompiles the whole set again, and macro-heavy "large"
+    # programs expand to well over a thousand ops
+    for attempt, sizes in enumerate((["small", "small", "medium", "medium", "large"], ["small", "medium"], ["small"])):
+        rng = seeds.stream(run_seed, f"program{attempt}" if attempt else "program")
+        size = rng.choice(sizes)
+        saved = exps.WORDS
+        exps.WORDS = SAFE_WORDS
+        try:
+            k = exps.swarm_knobs(rng, size)
+            src = exps.ExpsGen(rng, k).program()
+        finally:
+            exps.WORDS = saved
+        src = _strip_multiline_indent(src)
+        out = sut.compile_exps(src)
+        if "raised" in out:
+            raise HarnessError(f"generator produced a rejected program: {out} seed={run_seed}")
+        if sum(len(r["ops"]) for r in out["ok"]["routines"]) <= 400:
+            break
     doc = {"routines": out["ok"]["routines"]}
     mrng = seeds.stream(run_seed, "mutate")
     doc2, log = ssb.mutate(doc, mrng)
@@ -82,7 +87,7 @@ def _log_level(doc: dict):
     replay uses the same level."""
     import logging
 
-    return logging.DEBUG if seeds.H("loglevel", model.canon({"routines": doc["routines"]})) % 3 == 0 else logging.WARNING
+    return logging.DEBUG if seeds.H("loglevel", model.canon({"routines": doc["routines"]})) % 8 == 0 else logging.WARNING
 
 
 def _convert_traced(doc: dict, target) -> dict:
@@ -320,7 +325,7 @@ def replay(payload: dict) -> dict:
 
 # ---- the check ---------------------------------------------------------------------------------
 
-TIERS = {"quick": {"inputs": 230, "wall_cap": 80.0}, "thorough": {"inputs": 2600, "wall_cap": 1500.0}}
+TIERS = {"quick": {"inputs": 480, "wall_cap": 80.0}, "thorough": {"inputs": 2600, "wall_cap": 1500.0}}
 
 
 def _warm():
